@@ -55,19 +55,62 @@ theorem finishDelete_gone (s : St) (o : Obj) (thr : Option Key) (x : Key) (hx : 
       simp only [removeObj, List.mem_filter]
       exact ⟨ha, by simpa using hxo⟩
 
-theorem foldl_only_dependents (g : St → Key → St)
-    (hdeps : ∀ s c, ∀ e ∈ (g s c).deps, e ∈ s.deps)
-    (hg : ∀ s c x, x ∈ s.keys → x ∉ (g s c).keys → DependsOn s.deps x c) (cs : List Key) :
-    ∀ (st : St) (x : Key), x ∈ st.keys → x ∉ (cs.foldl g st).keys → ∃ c ∈ cs, DependsOn st.deps x c := by
+theorem deleteChildren_only_dependents (rec : St → Obj → St × Bool)
+    (hdeps : ∀ s co, ∀ e ∈ (rec s co).1.deps, e ∈ s.deps)
+    (hg : ∀ s co x, x ∈ s.keys → x ∉ (rec s co).1.keys → DependsOn s.deps x co.key) (cs : List Key) :
+    ∀ (st : St) (x : Key), x ∈ st.keys → x ∉ (deleteChildren rec cs st).1.keys → ∃ c ∈ cs, DependsOn st.deps x c := by
   induction cs with
   | nil => intro st x hx hn; exact absurd hx hn
   | cons c cs ih =>
     intro st x hx hn
-    simp only [List.foldl_cons] at hn
-    by_cases hmid : x ∈ (g st c).keys
-    · obtain ⟨c', hc', hd⟩ := ih (g st c) x hmid hn
-      exact ⟨c', List.mem_cons_of_mem _ hc', hd.mono (hdeps st c)⟩
-    · exact ⟨c, List.mem_cons_self, hg st c x hx hmid⟩
+    simp only [deleteChildren] at hn
+    split at hn
+    · rename_i co hfind
+      have hk := find_key st c co hfind
+      by_cases hmid : x ∈ (rec st co).1.keys
+      · split at hn
+        · obtain ⟨c', hc', hd⟩ := ih _ x hmid hn
+          exact ⟨c', List.mem_cons_of_mem _ hc', hd.mono (hdeps st co)⟩
+        · exact absurd hmid hn
+      · exact ⟨c, List.mem_cons_self, by rw [← hk]; exact hg st co x hx hmid⟩
+    · obtain ⟨c', hc', hd⟩ := ih st x hx hn
+      exact ⟨c', List.mem_cons_of_mem _ hc', hd⟩
+
+/-- a helper call never removes an object whose deletion is under way further up the call stack -/
+theorem finishDelete_has_other (s : St) (o : Obj) (thr : Option Key) (x : Key) (hx : s.has x = true) (hne : x ≠ o.key) :
+    (finishDelete s o thr).1.has x = true := by
+  rw [has_true_iff] at hx ⊢
+  exact Classical.byContradiction fun hn => hne (finishDelete_gone s o thr x hx hn)
+
+theorem deleteHelper_keeps_busy : ∀ (f : Nat) (st : St) (o : Obj) (c : Bool) (busy : List Key) (thr : Option Key)
+    (b : Key), b ∈ busy → st.has b = true → (deleteHelper f st o c busy thr).1.has b = true := by
+  intro f
+  induction f with
+  | zero =>
+    intro st o c busy thr b hb hs
+    simp only [deleteHelper]
+    split
+    · exact hs
+    · rename_i hc
+      have hne : b ≠ o.key := by
+        intro e; subst e; exact hc (by simpa using hb)
+      exact finishDelete_has_other st o thr b hs hne
+  | succ f ih =>
+    intro st o c busy thr b hb hs
+    simp only [deleteHelper]
+    split
+    · exact hs
+    · split
+      · exact hs
+      · rename_i hc
+        have hne : b ≠ o.key := by
+          intro e; subst e; exact hc (by simpa using hb)
+        have hch := deleteChildren_preserves (fun s => s.has b = true)
+          (fun s co => deleteHelper f s co c (o.key :: busy) thr)
+          (fun s co h => ih s co c _ thr b (List.mem_cons_of_mem _ hb) h) (children st o.key) st hs
+        split
+        · exact finishDelete_has_other _ o thr b hch hne
+        · exact hch
 
 /-- whatever a helper call removes is the object it was made for or depends on it -/
 theorem deleteHelper_only_dependents : ∀ (f : Nat) (st : St) (o : Obj) (c : Bool) (busy : List Key) (thr : Option Key)
@@ -76,8 +119,11 @@ theorem deleteHelper_only_dependents : ∀ (f : Nat) (st : St) (o : Obj) (c : Bo
   induction f with
   | zero =>
     intro st o c busy thr x hx hn
-    rw [finishDelete_gone st o thr x hx hn]
-    exact DependsOn.refl _
+    simp only [deleteHelper] at hn
+    split at hn
+    · exact absurd hx hn
+    · rw [finishDelete_gone st o thr x hx hn]
+      exact DependsOn.refl _
   | succ f ih =>
     intro st o c busy thr x hx hn
     simp only [deleteHelper] at hn
@@ -85,27 +131,16 @@ theorem deleteHelper_only_dependents : ∀ (f : Nat) (st : St) (o : Obj) (c : Bo
     · exact absurd hx hn
     · split at hn
       · exact absurd hx hn
-      · by_cases hmid : x ∈ (List.foldl (deleteChild fun s co => (deleteHelper f s co c (o.key :: busy) thr).fst) st
-            (children st o.key)).keys
-        · rw [finishDelete_gone _ o thr x hmid hn]
-          exact DependsOn.refl _
-        · obtain ⟨ch, hch, hd⟩ := foldl_only_dependents
-            (deleteChild fun s co => (deleteHelper f s co c (o.key :: busy) thr).fst)
-            (by
-              intro s k e he
-              unfold deleteChild at he
-              split at he
-              · exact deleteHelper_deps _ _ _ _ _ _ e he
-              · exact he)
-            (by
-              intro s k y hy hny
-              unfold deleteChild at hny
-              split at hny
-              · rename_i co hfind
-                have := ih s co c (o.key :: busy) thr y hy hny
-                rwa [find_key s k co hfind] at this
-              · exact absurd hy hny)
-            (children st o.key) st x hx hmid
+      · have hloop := deleteChildren_only_dependents (fun s co => deleteHelper f s co c (o.key :: busy) thr)
+          (fun s co => deleteHelper_deps _ _ _ _ _ _) (fun s co y hy hny => ih s co c _ thr y hy hny)
+          (children st o.key) st x hx
+        by_cases hmid : x ∈ (deleteChildren (fun s co => deleteHelper f s co c (o.key :: busy) thr)
+            (children st o.key) st).1.keys
+        · split at hn
+          · rw [finishDelete_gone _ o thr x hmid hn]
+            exact DependsOn.refl _
+          · exact absurd hmid hn
+        · obtain ⟨ch, hch, hd⟩ := hloop hmid
           exact DependsOn.step hd (children_edge st o.key ch hch)
 
 theorem deleteObject_only_dependents (st : St) (k : Key) (c : Bool) (thr : Option Key) (x : Key)
